@@ -87,6 +87,8 @@ def plan_C01(tier, seed):
     for kind in WINDOWED:
         for n in range(1, 6):
             alpha = A5 if n <= nmax_full else A3
+            if n <= 2:
+                alpha = alpha | {BIG}          # a 10^6 spike entering and leaving the window (cancellation in the incremental updates)
             m = MULTS[(n - 1) % len(MULTS)]
             # reset is part of every history (t counts inputs since construction or reset): from every reachable state, reset
             # followed by fresh values (a state after reset merges with the initial state in the VIEW, so the continuation
@@ -161,6 +163,14 @@ def plan_C02(tier, seed):
         jobs.append(closed("EMA_n%d" % n, "EMA", n, salpha=A5, maxdepth=(6 if q else 8), invariants=inv))
     jobs.append(closed("TR_s", "TR", 1, salpha=A5, maxdepth=5, invariants=inv))
     jobs.append(closed("TR_b", "TR", 1, balpha=bars, maxdepth=(4 if q else 5), invariants=inv))
+    # user-defined bar types are not validated: close outside [low, high], low above high (the formulas are defined all the same)
+    odd = [bar(3, 1, 5), bar(2, 2, 1), bar(1, 3, 2), bar(4, 2, 3)]
+    inv_odd = ("Refines", "Safe")       # (NonNeg is a statement about bars with low <= high)
+    jobs.append(closed("TR_odd", "TR", 1, balpha=odd, maxdepth=4, invariants=inv_odd))
+    jobs.append(closed("ATR_odd", "ATR", 2, balpha=odd, maxdepth=4, invariants=inv_odd))
+    jobs.append(closed("KC_odd", "KC", 2, m=Fr(2), balpha=odd, maxdepth=4, invariants=inv_odd))
+    xs = stream_patterns(rng, 66200 if q else 140000, -9, 9, lively=True)
+    jobs.append(scripted("EMA_past_65536_n%d" % 5, {1: cfg("EMA", 5)}, [new_op(1)] + [s_op(1, x) for x in xs], noovf=False, invariants=inv))
     for kind in ("EMA", "ATR", "MACD", "KC", "CE"):
         # t counts inputs since construction or reset: a reused instance (reset, then fresh values) from every state of a short model
         n = 3
@@ -367,6 +377,8 @@ def plan_C04(tier, seed):
                 conts = [conts[0], conts[2]]
             # ... and one whose first post-reset input is not finite (state that only matters on a non-finite step)
             conts.append([{"op": "reset", "i": 1}, {"op": "tok", "i": 1, "x": "NaN"}] + continuations(kind, n)[1])
+            if kind in HLC_KINDS and kind not in BAR_ONLY:
+                conts.append([{"op": "reset", "i": 1}, {"op": "tokb", "i": 1, "x": "NaN"}] + to_ops(kind, 1, [5, 8, 6, 9][: n + 2], style=1))
             unb = kind in UNBOUNDED
             depth = (n + 3 if q else n + 4) if unb else 10**6
             if kind in BAR_ONLY and n >= 2:
@@ -539,6 +551,16 @@ def plan_C06(tier, seed):
             jobs.append(Job("%s_n%d" % (kind, n), {1: a, 2: a, 3: a}, initial={1}, slots={1, 2}, salpha=sa, balpha=ba, resets={1}, conts=conts,
                             maxdepth=depth + 3 * n + 14, noovf=False, invariants=inv, extra_defs="FreeDepth == FreeDepthOf(%d)" % depth,
                             extra_cfg="CONSTRAINT FreeDepth", free_ids={1}))
+    for kind in ("FAST_STOCH", "SLOW_STOCH", "TR", "ATR", "KC", "SMA", "RSI"):
+        # checkpoints of instances driven through Next<&T> only (the two paths may keep different state)
+        bars5 = hlc_bars()[:5]
+        body = []
+        for x in (5, 7, 6, 9):
+            o = b_op(1, bar(x + 2, x, x + 1, v=1))
+            body += [o, dict(o, i=2)]
+        cont = [{"op": "save", "i": 1, "s": 1}, {"op": "restore", "s": 1, "j": 2}] + body
+        jobs.append(Job("%s_barpath_n2" % kind, {1: kcfg(kind, 2, alt=1), 2: kcfg(kind, 2, alt=1)}, initial={1}, slots={1}, balpha=bars5, conts=[cont], maxdepth=4 + 12,
+                        noovf=False, invariants=inv, extra_defs="FreeDepth == FreeDepthOf(4)", extra_cfg="CONSTRAINT FreeDepth", free_ids={1}))
     # random checkpoint positions in long histories; both copies continue for hundreds of steps
     for kind in ALL22:
         for rep in range(1 if q else 3):
@@ -591,7 +613,7 @@ def plan_C10(tier, seed):
             a = kcfg(kind, n, alt=rng.randint(0, 4))
             length = 300 if q else 1500
             ops = [new_op(i) for i in (1, 2, 3, 4, 5)]
-            lv = (1, 2, 3) if rep % 2 == 0 else (1, 2, 3, 5, 8)
+            lv = (1, 2, 3) if rep % 2 == 0 else (0, 1, 2, 3, 5, 8)
             for _ in range(length):
                 f = {k: rng.choice(lv) for k in "ohlcv"}            # five independent fields
                 if rng.random() < 0.3:
@@ -777,6 +799,13 @@ def plan_C09(tier, seed):
         for n in (1, 2, 3, 4):
             jobs.append(closed("%s_n%d" % (kind, n), kind, n, salpha=(A5 | {BIG}) if n <= 3 else A3, m=nonneg[n % 4], invariants=inv,
                                resets=({1} if n <= 3 else ())))
+    for kind in ("SMA", "WMA", "EMA", "BB", "SD"):
+        # the same bounds for a clone taken at any reachable state and then stepped on its own
+        n = 3
+        conts = [[{"op": "clone", "i": 1, "j": 2}] + [dict(o, i=2) for o in continuations(kind, n)[k]] for k in (0, 2)]
+        jobs.append(Job("%s_clone_n3" % kind, {1: kcfg(kind, n, alt=2), 2: kcfg(kind, n, alt=2)}, initial={1}, salpha={-1, 2, 4}, conts=conts, free_ids={1},
+                        maxdepth=(6 if kind == "EMA" else 10**6), noovf=False, invariants=inv,
+                        extra_defs="FreeDepth == FreeDepthOf(%d)" % (5 if kind == "EMA" else 10**6), extra_cfg="CONSTRAINT FreeDepth"))
     for n in (1, 2, 3, 5):
         jobs.append(closed("EMA_n%d" % n, "EMA", n, salpha=A5, maxdepth=(6 if q else 8), invariants=inv))
         jobs.append(closed("ATR_n%d" % n, "ATR", n, balpha=bars, maxdepth=(4 if q else 5), invariants=inv))
@@ -788,7 +817,7 @@ def plan_C09(tier, seed):
     jobs.append(closed("TR_b", "TR", 1, balpha=bars, maxdepth=4, invariants=inv))
     for t3 in [(1, 2, 3), (3, 1, 2), (2, 2, 1), (5, 3, 2)]:
         jobs.append(closed("MACD_%d_%d_%d" % t3, "MACD", t3[0], n2=t3[1], n3=t3[2], salpha=A5, maxdepth=(5 if q else 6), invariants=inv))
-        jobs.append(closed("PPO_%d_%d_%d" % t3, "PPO", t3[0], n2=t3[1], n3=t3[2], salpha=P3, maxdepth=(5 if q else 6), invariants=inv))
+        jobs.append(closed("PPO_%d_%d_%d" % t3, "PPO", t3[0], n2=t3[1], n3=t3[2], salpha=(A5 if t3[0] != t3[1] else P3), maxdepth=(5 if q else 6), invariants=inv))
     # cancellation-engineered streams: spikes / large values, then flat or nearly flat stretches
     for kind in ("SMA", "WMA", "SD", "MAD", "MIN", "BB", "EMA", "ATR", "KC", "CE", "MACD", "PPO", "TR"):
         for rep in range(2 if q else 6):
@@ -883,8 +912,10 @@ def plan_C17(tier, seed):
         for n in ((1, 2, 3) if q else (1, 2, 3, 4)):
             a = kcfg(kind, n, alt=n)
             sa, ba = free_alpha(kind, with_big=True)
-            if kind in ("ROC", "ER", "SMA", "WMA"):
+            if kind in ("ROC", "ER"):
                 sa = {0, 1, 2, BIG}
+            if kind in ("SMA", "WMA", "CCI", "MAD"):
+                sa = {-2, 0, 1, BIG} if sa else sa
             if kind in BAR_ONLY:
                 ba = ba[:4] + [bar(BIG, 1, 2, v=1)]
             extra = (2 if q else 3) if kind not in BAR_ONLY else (1 if q else 2)
@@ -1241,7 +1272,9 @@ def plan_C15(tier, seed):
                 ops = [s_op(1, x) for x in xs]
             for _ in range(rng.randint(0, 3)):
                 ops.insert(rng.randrange(len(ops)), {"op": "reset", "i": 1})
-            jobs.append(scripted("%s_str%d_n%d" % (kind, rep, n), {1: a}, [new_op(1)] + ops, noovf=False, invariants=inv))
+            cut = rng.randrange(len(ops) // 3, 2 * len(ops) // 3)
+            ops = ops[:cut] + [{"op": "save", "i": 1, "s": 1}, {"op": "restore", "s": 1, "j": 2}] + [dict(o, i=2) for o in ops[cut:]]
+            jobs.append(scripted("%s_str%d_n%d" % (kind, rep, n), {1: a, 2: a}, [new_op(1)] + ops, slots={1}, noovf=False, invariants=inv))
     # the composite obtained through Default::default() against parts built with the DOCUMENTED defaults (C11's table)
     DOC_DEFAULTS = {"BB": (9, 1, 1, 2), "KC": (10, 1, 1, 2), "CE": (22, 1, 1, 3), "MACD": (12, 26, 9, 2), "PPO": (12, 26, 9, 2),
                     "SLOW_STOCH": (14, 3, 1, 2), "ATR": (14, 1, 1, 2), "CCI": (20, 1, 1, 2), "RSI": (14, 1, 1, 2)}
@@ -1320,6 +1353,10 @@ def plan_C18(tier, seed):
                 if j in (0, 1, n, n + 1, len(body) - 1):
                     ops.append({"op": "save", "i": i, "s": 1})
             ops += [{"op": "reset", "i": i}] + to_ops(kind, i, xs[:5])
+            if k % 3 == 1 and n <= 20:   # many sessions on one instance: feed a little, reset, again (state must not grow per cycle)
+                for cyc in range(30):
+                    ops += to_ops(kind, i, xs[cyc % 7: cyc % 7 + 3]) + [{"op": "save", "i": i, "s": 1}, {"op": "reset", "i": i}]
+                ops += to_ops(kind, i, xs[:4]) + [{"op": "save", "i": i, "s": 1}]
             if k % 3 == 0:      # a non-finite value (for MFI / OBV also as volume), then more inputs: the state must not start to grow
                 ops += [{"op": "tok", "i": i, "x": ["PInf", "NaN", "FMax"][k % 3]}] + to_ops(kind, i, xs[:40] if len(xs) >= 40 else xs)
             ops.append({"op": "drop", "i": i})
